@@ -285,7 +285,43 @@ func (fc *FuncCtx) assignObj(st *State, obj types.Object, v Val) {
 		return
 	}
 	t := fc.coerce(st, v, obj.Type())
+	if isStruct(obj.Type()) && t.Sort.Kind == "V" {
+		t = fc.copyStruct(st, t, obj.Type())
+	}
 	st.env[obj] = Val{T: t, Typ: obj.Type()}
+}
+
+// copyStruct models assignment of a struct value: a fresh object whose declared fields (and the ghost fields
+// declared "of" this type) are copies of the source's.
+func (fc *FuncCtx) copyStruct(st *State, src *Term, typ types.Type) *Term {
+	stt, ok := types.Unalias(typ).Underlying().(*types.Struct)
+	if !ok {
+		return src
+	}
+	ref := fc.newRef(st, "copy")
+	for i := 0; i < stt.NumFields(); i++ {
+		f := stt.Field(i)
+		s := fc.sortOf(f.Origin().Type())
+		key := fc.fieldKey(f)
+		v := Select(fc.heapArr(st, key, s), src)
+		fc.writeLoc(st, &Loc{Kind: "field", Base: ref, Key: key, Sort: s, Typ: f.Type()}, v)
+	}
+	tn := ""
+	if n, ok := types.Unalias(typ).(*types.Named); ok {
+		tn = n.Obj().Name()
+		if n.Obj().Pkg() != nil {
+			tn = n.Obj().Pkg().Name() + "." + tn
+		}
+	}
+	for _, gf := range fc.eng.contracts.GhostFields {
+		if gf.Of != "" && gf.Of == tn {
+			s, _ := fc.sortOfTypeName(gf.Sort, nil)
+			key := "GF$" + gf.Name
+			v := Select(fc.heapArr(st, key, s), src)
+			fc.writeLoc(st, &Loc{Kind: "field", Base: ref, Key: key, Sort: s}, v)
+		}
+	}
+	return ref
 }
 
 func (fc *FuncCtx) execAssign(st *State, x *ast.AssignStmt) {
@@ -624,6 +660,13 @@ func (fc *FuncCtx) modifiesKeys(fn *types.Func, item string, as *assignedSet) {
 		return nil
 	}
 	switch e.Kind {
+	case "call":
+		if e.Args[0].Kind == "ident" {
+			if gf, ok := fc.eng.contracts.GhostFields[e.Args[0].Name]; ok {
+				s, _ := fc.sortOfTypeName(gf.Sort, nil)
+				as.fields["GF$"+gf.Name] = s
+			}
+		}
 	case "sel":
 		bt := typeOf(e.Args[0])
 		if bt != nil {
